@@ -185,8 +185,8 @@ def g_case(rng):
         if not any("sens" in e or "coll" in e for e in ent):
             ent.insert(0, {"sens": rng.choice(sens)})
         observers = {"kind": "list", "entries": ent}
-    agg = rng.choices([None, "mean", "max", "std", "ptp", "var", "bogus", "reshape", "argmax"],
-                      [55, 8, 5, 4, 3, 3, 6, 4, 12])[0]
+    agg = rng.choices([None, "mean", "max", "std", "ptp", "var", "bogus", "reshape", "argmax", "cumsum", "negative",
+                       "squeeze", "array"], [50, 8, 5, 4, 3, 3, 4, 4, 10, 3, 2, 2, 2])[0]
     output = rng.choices(["ndarray", "dataframe", "bogus"], [80, 10, 10])[0]
     tab = ["ok"] * 6
     if rng.random() < 0.45:
@@ -203,7 +203,7 @@ def g_case(rng):
 def corner_cases():
     """smallest scenes for every fault kind (always run)"""
     out = []
-    for fault in ["raise", "none", "wrong", "nofunc", "dim", "exc", "bogusagg", "argmax", "reshape", "bogusout",
+    for fault in ["raise", "none", "wrong", "nofunc", "dim", "exc", "bogusagg", "cumsum", "squeeze", "argmax", "reshape", "bogusout",
                   "dataframe", "shapes", "kwargs", "nosrc", "dup", "ok"]:
         leaf = {"kind": "custom", "func": 1, "pos": [[1, 2, 3]], "ori": [3]}
         if fault == "nofunc":
@@ -217,7 +217,8 @@ def corner_cases():
                  "ori": [0, 5], "left": True}
         case = {"objs": [leaf, sens, sens2], "sources": [{"bare": 0}] + ([{"bare": 0}] if fault == "dup" else []),
                 "observers": {"kind": "list", "entries": [{"sens": 1}, {"sens": 2}]},
-                "pixel_agg": {"bogusagg": "bogus", "argmax": "argmax", "reshape": "reshape"}.get(fault),
+                "pixel_agg": {"bogusagg": "bogus", "argmax": "argmax", "reshape": "reshape", "cumsum": "cumsum",
+                              "squeeze": "squeeze"}.get(fault),
                 "output": {"bogusout": "bogus", "dataframe": "dataframe"}.get(fault, "ndarray"),
                 "kwargs": fault == "kwargs", "dict": None, "in_out": "auto", "sumup": False, "squeeze": True,
                 "field": "B", "tab": [fault if fault in ("raise", "none", "wrong") else "ok"], "ncalls": 2,
@@ -434,7 +435,8 @@ def c_call(case):
             else:
                 ent.append("OBadEnt")
         o = "(OList %s)" % cl(ent)
-    agg = {None: "PNone", "mean": "PValid", "max": "PValid", "std": "PValid", "ptp": "PValid", "var": "PValid", "bogus": "PBadName", "reshape": "PCheckRaises",
+    agg = {None: "PNone", "mean": "PValid", "max": "PValid", "std": "PValid", "ptp": "PValid", "var": "PValid", "cumsum": "PBadName", "negative": "PBadName", "squeeze": "PBadName",
+           "array": "PBadName", "bogus": "PBadName", "reshape": "PCheckRaises",
            "argmax": "PAggRaises"}[case["pixel_agg"]]
     return "(mkCall %s %s %s %s %s %s %s)" % (
         d, "true" if case["kwargs"] else "false", cl(srcs), o, agg,
@@ -503,6 +505,18 @@ def exact_violation(case, obs):
     return None
 
 
+def exact_repeat_violation(case, obs):
+    """the identical call made again (field functions behaving identically) ends the same way: same class, same text"""
+    import re
+    if case["fault"] is not None or len(obs) < 2 or case["tab"] != ["ok"] * len(case["tab"]):
+        return None
+    m0, m1 = (re.sub(r"0x[0-9a-fA-F]+|id=\d+", "#", o["exc"] or "") for o in obs[:2])
+    if obs[0]["out"] != obs[1]["out"] or m0 != m1:
+        return (f"identical-result/outcome:{CODE_NAME[obs[0]['out']]}",
+                f"first call {obs[0]['exc'] or 'returns'!r}, identical second call {obs[1]['exc'] or 'returns'!r}"[:300])
+    return None
+
+
 def shrink_case(case, fails):
     c = copy.deepcopy(case)
     for key in ("sources",):
@@ -539,6 +553,9 @@ def run_exact(ctx, cases, flow, built, tag):
             small = shrink_case(case, fails)
             v2 = exact_violation(small, impl_run(small, flow)[0]) or v
             ctx.impl_fail(v2[0], v2[1], {"kind": "exact-scene", "case": small})
+        rv = exact_repeat_violation(case, obs)
+        if rv is not None:
+            ctx.impl_fail(rv[0], rv[1], {"kind": "exact-scene", "case": case})
         if case["fault"] is None and obs[0]["out"] == 0 and len(obs) > 1 and obs[1]["out"] == 0 \
                 and case["tab"] == ["ok"] * len(case["tab"]):
             same = _same_value(vals[0], vals[1])
@@ -614,6 +631,17 @@ def rvec(rng, s=2.0):
     return [round(rng.uniform(-s, s), 3) for _ in range(3)]
 
 
+# numpy names that exist but do not reduce an array to a number: invalid pixel_agg values. A large pool, so that
+# the FIRST use of a name in this process (which is what a poisoned memo would need) happens inside a checked scene
+NONREDUCING = ["cumsum", "cumprod", "array", "negative", "squeeze", "abs", "sqrt", "exp", "sin", "cos", "tan", "floor",
+               "ceil", "sort", "ravel", "copy", "asarray", "flip", "square", "sign", "isnan", "isfinite", "log1p",
+               "expm1", "rint", "trunc", "conj", "real", "imag", "transpose", "atleast_1d", "nan_to_num", "zeros_like",
+               "ones_like", "argsort", "fliplr", "flipud", "positive", "reciprocal", "cbrt", "arctan", "sinh", "tanh",
+               "degrees", "radians", "fabs", "signbit", "logical_not", "isinf", "spacing", "absolute", "fix", "angle",
+               "iscomplex", "isreal", "atleast_2d", "atleast_3d", "ascontiguousarray", "asfortranarray", "empty_like",
+               "float64", "float32", "int64", "bool_", "shape", "nonzero", "argwhere", "flatnonzero", "unique", "diff",
+               "gradient", "ediff1d", "tril", "triu", "rot90", "msort", "around", "round", "rollaxis"]
+NONREDUCING = [n for n in NONREDUCING if hasattr(np, n)]
 HALF_PI = round(float(np.pi / 2), 15)
 SPECIAL_RV = [[0, 0, 0], [HALF_PI, 0, 0], [0, 2 * HALF_PI, 0], [0, 0, -HALF_PI], [0, -HALF_PI, 0]]   # quarter turns, flips
 
@@ -811,14 +839,20 @@ def _g_scene(rng):
         observers = {"own": k, "attr": "position"}
     else:
         observers = {"sens": rng.sample(sens, rng.randint(1, len(sens)))}
-    return {"objs": objs, "colls": colls, "sources": sources, "observers": observers, "entry": entry,
+    sc = {"objs": objs, "colls": colls, "sources": sources, "observers": observers, "entry": entry,
             "field": rng.choice("BBHHJM"), "sumup": rng.random() < 0.3, "squeeze": rng.random() < 0.6,
-            "pixel_agg": rng.choices([None, "mean", "min", "std", "var", "ptp", "max", "median", "bogus", "argmax", 5, "ndim"],
-                                     [55, 8, 4, 4, 3, 3, 3, 2, 6, 7, 3, 2])[0],
+            # invalid ones: unknown name, non-string, names that exist in numpy but do not reduce to a number
+            # (cumsum, array, negative, squeeze), reducers that reject the axis tuple (argmax, ndim)
+            "pixel_agg": rng.choices([None, "mean", "min", "std", "var", "ptp", "max", "median", "bogus", "argmax", 5, "ndim",
+                                      "nonreducing"],
+                                     [50, 8, 4, 4, 3, 3, 3, 2, 4, 6, 2, 2, 9])[0],
             "output": rng.choices(["ndarray", "dataframe", "bogus"], [80, 10, 10])[0],
             "in_out": rng.choice(["auto", "auto", "inside", "outside", "bogus"]),
             "kwargs": rng.random() < 0.03,
             "scale": rng.choice([1, 1, 1, 1e-3, 1e-6, 1e3])}
+    if sc["pixel_agg"] == "nonreducing":
+        sc["pixel_agg"] = rng.choice(NONREDUCING)
+    return sc
 
 
 ATTRS = ["dimension", "diameter", "vertices", "faces", "polarization", "magnetization", "current", "moment",
@@ -995,6 +1029,16 @@ def call_scene(sc, objs, srcs, observers, root=None):
     return val, exc
 
 
+def _ename(e):
+    return "returns" if e is None else type(e).__name__
+
+
+def _msg(e):
+    """exception text with memory addresses / object ids masked"""
+    import re
+    return re.sub(r"0x[0-9a-fA-F]+|id=\d+", "#", f"{type(e).__name__}: {e}")
+
+
 def check_scene(sc):
     """-> list of (signature, text)"""
     objs, colls, allobjs, srcs, observers, arrays, root = build_scene(sc)
@@ -1018,7 +1062,11 @@ def check_scene(sc):
             out.append((f"caller-array-aliased/{k}", f"result shares memory with the {k} array"))
     v2, e2 = call_scene(sc, objs, srcs, observers, root)
     if (e1 is None) != (e2 is None) or (e1 is not None and (type(e1) is not type(e2))):
-        out.append(("identical-result/outcome", f"first call {CODE_NAME[exc_code(e1)]}, second {CODE_NAME[exc_code(e2)]}"))
+        out.append((f"identical-result/outcome:{_ename(e1)}",
+                    f"first call {_ename(e1)} ({str(e1)[:70]!r}), identical second call {_ename(e2)} ({str(e2)[:70]!r})"))
+    elif e1 is not None and _msg(e1) != _msg(e2):
+        out.append((f"identical-result/message:{_ename(e1)}", f"first call: {_msg(e1)[:90]!r}, identical second call: "
+                    f"{_msg(e2)[:90]!r}"))
     elif e1 is None and not _same_value(v1, v2):
         bits = d is not None and d[0] == "orientation-bits"
         if hasattr(v1, "select_dtypes"):
@@ -1038,6 +1086,17 @@ def check_scene(sc):
     d2 = snap_diff(after, third, allobjs)
     if d2 is not None and d is None:
         out.append((f"state-restored/{d2[0]}-second-call", d2[1]))
+    if e1 is not None and not out:
+        # a failing call must fail the same way again after an intervening VALID call on the same objects
+        call_scene(dict(sc, pixel_agg=None, output="ndarray", kwargs=False), objs, srcs, observers, root)
+        v3, e3 = call_scene(sc, objs, srcs, observers, root)
+        if type(e3) is not type(e1) or _msg(e3) != _msg(e1):
+            out.append((f"identical-result/outcome-after-valid-call:{_ename(e1)}",
+                        f"first call {_ename(e1)} ({str(e1)[:70]!r}); after a valid call the identical call gives "
+                        f"{_ename(e3)} ({str(e3)[:70]!r})"))
+        d3 = snap_diff(after, deep_snapshot(allobjs), allobjs)
+        if d3 is not None:
+            out.append((f"state-restored/{d3[0]}-third-call", d3[1]))
     return out, exc_code(e1)
 
 
@@ -1620,9 +1679,10 @@ def replay(ctx, obj):
             flow = {"lines": [], "prog": [], "body": "getBH_level2"}
         obs, _, _ = impl_run(rp["case"], flow)
         v = exact_violation(rp["case"], obs)
+        rv = exact_repeat_violation(rp["case"], obs)
         for o in obs:
             print("replay: call ->", CODE_NAME[o["out"]], o["exc"], "path lengths", [len(a[0]) for a in o["store"]])
-        bad = [v] if v else []
+        bad = [x for x in (v, rv) if x]
     else:
         print(json.dumps(obj, indent=1)[:3000])
         return 0
